@@ -7,6 +7,7 @@ import (
 	"fmt"
 	"go/token"
 	"go/types"
+	"strings"
 
 	"golang.org/x/tools/go/ssa"
 )
@@ -92,9 +93,9 @@ func isGlobalLoad(v ssa.Value, pkgPath, name string) bool {
 }
 
 func checkC16(c *Ctx) {
-	c.Explanation = "Decides the structure that makes rtcmlogger a lossless tee: (R1) in the copy loop every successful read of n>0 bytes from standard input is followed, before the next read and on every path, by exactly one write of readBuffer[:n] (same buffer, same n) to standard output and then exactly one send to the recorder; the only edges that bypass them are end-of-file and n==0; (R2) what is sent to the recorder is a fresh buffer of length n filled by copy from readBuffer[:n], so the recorder never aliases the buffer that the next read overwrites; (R3) the recorder writes every block it receives, unmodified, before its next receive and leaves its loop only when the channel is closed; (R4) start closes the recorder channel and waits for the recorder goroutine before returning, on every path (join rule of C11). R1 also requires that every return of the copy loop is reached over an err == io.EOF edge on every path."
+	c.Explanation = "Decides the structure that makes rtcmlogger a lossless tee: (R1) in the copy loop every successful read of n>0 bytes from standard input is followed, before the next read and on every path, by exactly one write of readBuffer[:n] (same buffer, same n) to standard output and then exactly one send to the recorder; the only edges that bypass them are end-of-file and n==0; (R2) what is sent to the recorder is a fresh buffer of length n filled by copy from readBuffer[:n], so the recorder never aliases the buffer that the next read overwrites; (R3) the recorder writes every block it receives, unmodified, before its next receive and leaves its loop only when the channel is closed; (R4) start closes the recorder channel and waits for the recorder goroutine before returning, on every path (join rule of C11). R1 also requires that every return of the copy loop is reached over an err == io.EOF edge on every path. (R6) the copy loop, the recorder, start and the module functions they call outside the logger package are free of index, slice, bit-read, division, shift, assertion and make panics (the arithmetic obligations of C07, discharged by linear entailment)."
 	c.NotDecided = "dailylogger's own file handling and midnight gating (dependency); what os.File.Read/Write do; partial writes to stdout (ignored by design); a read that returns n>0 together with io.EOF (os.File never does)."
-	c.Assumptions = append(c.Assumptions, "os.File.Read returns (0, io.EOF) at end of file, never n>0 together with io.EOF")
+	c.Assumptions = append(c.Assumptions, "os.File.Read returns (0, io.EOF) at end of file, never n>0 together with io.EOF", "io.Reader contract: n, err := r.Read(p) gives 0 <= n <= len(p)")
 	P := c.P
 	pkg := "apps/rtcmlogger"
 	rw := P.Func(pkg, "readAndWrite")
@@ -425,6 +426,11 @@ func checkC16(c *Ctx) {
 	if nUses > 0 && badUses == 0 {
 		c.OK("C16-R5", "event-logger-guarded", rw.Pos(), fmt.Sprintf("all %d uses of the event logger follow a LogEvents test", nUses))
 	}
+	// ---- R6 no run-time panic in the copy loop, the recorder and what they call (a panic ends the tee)
+	runBoundsLite(c, "C16-R6", []*ssa.Function{rw, rec, start}, func(fn *ssa.Function) bool {
+		// the logger package (midnight rotation, pushing old logs) runs beside the tee, not in it
+		return fn.Pkg == nil || !strings.HasSuffix(fn.Pkg.Pkg.Path(), "apps/rtcmlogger/logger")
+	})
 	c.MinInstances("C16-R5", 1)
 	c.MinInstances("C16-R1", 8)
 	c.MinInstances("C16-R2", 1)
